@@ -2,6 +2,7 @@ package tl
 
 import (
 	"context"
+	"fmt"
 	"runtime"
 	"strconv"
 	"strings"
@@ -38,7 +39,13 @@ func (en *Engine) WorkSharing(n, q int, pinLanes []int, k, extra int) {
 	for i, l := range pinLanes {
 		// every idle worker parked in its blocking select: the queue goroutine's first (non-blocking) offer
 		// to its own worker succeeds, so the task pushed to lane l pins worker l
-		WaitUntil(100*time.Millisecond, func() bool { return workersBlockedInSelect() == n-i })
+		if !WaitUntil(100*time.Millisecond, func() bool { return workersBlockedInSelect() == n-i }) {
+			// the task may then pin another worker than worker l (still |P| pinned workers): count it, give it more time once
+			en.E.Count("sharing_pin_idle_workers_not_in_select_after_100ms", 1)
+			if !WaitUntil(400*time.Millisecond, func() bool { return workersBlockedInSelect() == n-i }) {
+				en.E.Count("sharing_pin_not_targeted", 1)
+			}
+		}
 		t := r.NewTask(true, 0, false)
 		if res := r.Push(t, l); res != "ok" {
 			r.Violation("push-of-pinning-task failed: %s", res)
@@ -565,7 +572,7 @@ func (en *Engine) BackToBack(n, q, variant, idx int) {
 		select {
 		case <-waited:
 		case <-time.After(LiveBound):
-			r.stuck = true
+			r.stuck.Store(true)
 			r.Violation("wait-did-not-return within %v after cancel", LiveBound)
 			return
 		}
@@ -584,7 +591,7 @@ func (en *Engine) BackToBack(n, q, variant, idx int) {
 	}
 	r.rec("Z:" + strconv.Itoa(z1))
 	if z1 != 0 {
-		r.stuck = true
+		r.stuck.Store(true)
 	}
 	r.Push(r.NewTask(false, 0, false), en.Rng.Intn(n))
 }
@@ -877,6 +884,175 @@ func (en *Engine) TaskKinds(n, q, eq int) {
 	}
 	if _, lp := r.Status(); lp != -1 {
 		r.Violation("lastpanic: no task panicked, LastPanic is set (value id %d; -2 = a value no task raised) after tasks of kinds ptr/func/slice/map/equal/zero", lp)
+	}
+	if last, ok := r.PendingSettles(0, LiveBound); !ok && len(r.viols) == 0 {
+		r.Violation("pending-exact: lane at rest, PendingTask=%d want 0", last)
+	}
+	en.Shutdown(r, false)
+}
+
+// ---------------------------------------------------------------- C06: a timeout racing a drain
+
+// TimeoutRace: every worker pinned, lane k full (1 held + queueSize buffered), a producer blocked in PushTask with
+// timeout T; one pinned worker is released at T+delta (delta swept around 0), so the lane starts to drain right when
+// the timeout fires. Whatever PushTask answers must be what happened to the task: `to` means never started
+// (monitor), nil means started exactly once. gmp1 runs the race on a single P.
+func (en *Engine) TimeoutRace(n, q int, delta time.Duration, gmp1 bool, idx int) {
+	const fam = "timeoutrace"
+	name := sname(fam, n, q, delta, gmp1, idx)
+	if en.Skip(fam, name) {
+		return
+	}
+	r := en.New(fam, name, n, q)
+	defer en.Finish(fam, r)
+	const T = 3 * time.Millisecond
+	r.Start(T)
+	// set-up pushes may themselves time out under load: retry with fresh tasks
+	push := func(gated bool, lane int) *Task {
+		for a := 0; a < 200; a++ {
+			t := r.NewTask(gated, 0, false)
+			if r.Push(t, lane) == "ok" {
+				return t
+			}
+		}
+		return nil
+	}
+	var pins []*Task
+	for i := 0; i < n; i++ {
+		t := push(true, i)
+		if t == nil || !WaitUntil(LiveBound, func() bool { return r.Started(t) }) {
+			r.Violation("progress: pinning task for lane %d not accepted/started", i)
+			en.Shutdown(r, false)
+			return
+		}
+		pins = append(pins, t)
+	}
+	k := en.Rng.Intn(n)
+	for j := 0; j <= q; j++ {
+		if push(false, k) == nil {
+			r.Violation("progress: lane %d never accepted task %d of %d", k, j+1, q+1)
+			en.Shutdown(r, false)
+			return
+		}
+	}
+	r.PendingSettles(q+1, LiveBound)
+	if gmp1 {
+		old := runtime.GOMAXPROCS(1)
+		defer runtime.GOMAXPROCS(old)
+	}
+	// two producers race the drain (one slot frees per released worker)
+	t0 := time.Now()
+	c1 := r.PushAsync(r.NewTask(false, 0, false), k)
+	c2 := r.PushAsync(r.NewTask(false, 0, false), k)
+	if d := T + delta - time.Since(t0); d > 0 {
+		time.Sleep(d)
+	}
+	inFlight := 0
+	for _, c := range []*PushCall{c1, c2} {
+		if !c.Done() {
+			inFlight++
+		}
+	}
+	pins[en.Rng.Intn(len(pins))].Release() // the drain begins
+	if !WaitUntil(LiveBound+T, func() bool { return c1.Done() && c2.Done() }) {
+		r.Violation("progress: PushTask with a %v timeout has not returned after %v", T, LiveBound+T)
+	}
+	for _, c := range []*PushCall{c1, c2} {
+		if c.Done() {
+			if c.Res == "to" && inFlight > 0 {
+				en.E.Count("pushes_timed_out_while_draining", 1)
+			}
+			if c.Res == "ok" && inFlight > 0 {
+				en.E.Count("pushes_accepted_while_draining", 1)
+			}
+		}
+	}
+	r.ReleaseAll()
+	// everything accepted runs; a task whose push timed out must not (give a wrongly enqueued one the time to show up)
+	WaitUntil(LiveBound, func() bool {
+		r.mu.Lock()
+		defer r.mu.Unlock()
+		for _, c := range r.calls {
+			if c.Res == "ok" && r.nF[c.T.ID] == 0 {
+				return false
+			}
+		}
+		return true
+	})
+	if last, ok := r.PendingSettles(0, LiveBound); !ok && len(r.viols) == 0 {
+		r.Violation("pending-exact: lane at rest, every accepted task ran, PendingTask=%d want 0 (a task whose PushTask returned an error was enqueued?)", last)
+	}
+	time.Sleep(300 * time.Microsecond)
+	en.Shutdown(r, false)
+}
+
+// TimeoutRaces sweeps delta for one configuration; `achieved` is judged by the caller through the counter
+// pushes_timed_out_while_draining.
+func (en *Engine) TimeoutRaces(n, q, reps int) {
+	for rep := 0; rep < reps; rep++ {
+		for i, us := range []int{-3000, -1000, -300, -100, 0, 100, 300, 1000, 3000} {
+			en.TimeoutRace(n, q, time.Duration(us)*time.Microsecond, (rep+i)%4 == 3, rep)
+		}
+	}
+}
+
+// RequireTimeoutRace reports the family as not achieved when no push ever timed out while the lane was draining.
+func (en *Engine) RequireTimeoutRace() {
+	if en.families["timeoutrace"] == 0 {
+		return
+	}
+	if v, _ := en.E.Stats["pushes_timed_out_while_draining"].(int); v == 0 {
+		en.degraded = append(en.degraded, fmt.Sprintf("timeoutrace: none of %d runs produced a push that timed out while the lane was draining", en.families["timeoutrace"]))
+	}
+}
+
+// ---------------------------------------------------------------- C06/C14: a task that uses the lane from inside Start()
+
+type reentrant struct {
+	r     *Run
+	self  *Task
+	child *Task
+	lane  int
+}
+
+func (x reentrant) Start() {
+	x.self.startWith(func() {
+		x.r.Status()
+		x.r.PushAs(x.r.NewProducer(), x.child, x.lane)
+		x.r.Status()
+	})
+}
+
+// Reentrant: a task calls Status() and PushTask() on its own lane from inside Start() (the worker is busy with
+// it meanwhile). Neither call may block; the pushed child must be started exactly once.
+func (en *Engine) Reentrant(n, q int) {
+	const fam = "reentrant"
+	name := sname(fam, n, q)
+	if en.Skip(fam, name) {
+		return
+	}
+	r := en.New(fam, name, n, q)
+	defer en.Finish(fam, r)
+	r.Start(longTimeout)
+	// one parent at a time: a second parent waiting in the same queue goroutine's hands while the first one pushes
+	// from inside Start() would (legitimately) block that push until a worker is free
+	for i := 0; i < 3; i++ {
+		lane := en.Rng.Intn(n)
+		parent := r.NewTask(false, 0, false)
+		child := r.NewTask(false, 0, false)
+		parent.kind = "reentrant"
+		parent.wrap = reentrant{r: r, self: parent, child: child, lane: lane}
+		if res := r.Push(parent, lane); res != "ok" {
+			r.Violation("progress: push returned %s", res)
+		}
+		for _, t := range []*Task{parent, child} {
+			if !WaitUntil(LiveBound+time.Second, func() bool { return r.Finished(t) }) {
+				r.Violation("progress: task %d (%s; the child is pushed from inside the parent's Start()) was not run within %v", t.ID, t.Kind(), LiveBound)
+			}
+		}
+		if len(r.viols) > 0 {
+			break
+		}
 	}
 	if last, ok := r.PendingSettles(0, LiveBound); !ok && len(r.viols) == 0 {
 		r.Violation("pending-exact: lane at rest, PendingTask=%d want 0", last)
